@@ -957,9 +957,81 @@ class ModuleInliner:
         res = self._resolve(t, caller)
         return res is not None and res[0] is not caller and self._eligible(res[0]) and self._expr_helper(res[0]) is None and not _is_generator(res[0].node)
 
+    def _comp_to_loops(self, st: ast.stmt, caller: Def) -> Optional[List[ast.stmt]]:
+        """`x = [E for a in A for b in helper(a)]` / `return [helper(a) for a in A]` where `helper` is a new statement helper: the
+        comprehension is written as the accumulating loops it abbreviates, with the helper call as the whole right-hand side of an
+        assignment (the form the expansion understands). Evaluation order is that of the comprehension."""
+        if isinstance(st, ast.Assign) and len(st.targets) == 1 and isinstance(st.targets[0], ast.Name):
+            val, acc = st.value, st.targets[0].id
+        elif isinstance(st, ast.Return) and st.value is not None:
+            self.counter += 1
+            val, acc = st.value, f"_inl_c{self.counter}"
+        else:
+            return None
+        conv = None
+        if isinstance(val, ast.Call) and isinstance(val.func, ast.Name) and val.func.id in ("list", "set", "tuple", "sorted") and len(val.args) == 1 and not val.keywords \
+                and isinstance(val.args[0], (ast.GeneratorExp, ast.ListComp)):
+            conv, val = val.func.id, val.args[0]
+        if not isinstance(val, (ast.ListComp, ast.SetComp, ast.GeneratorExp)) or (isinstance(val, ast.GeneratorExp) and conv is None):
+            return None
+        gens = val.generators
+        if any(g.is_async for g in gens):
+            return None
+        in_iter = [g for g in gens if self._is_stmt_helper_call(g.iter, caller) and not (isinstance(g.iter, ast.UnaryOp))]
+        in_elt = self._is_stmt_helper_call(val.elt, caller) and not isinstance(val.elt, ast.UnaryOp)
+        if not in_iter and not in_elt:
+            return None
+        if isinstance(st, ast.Assign) and any(isinstance(n, ast.Name) and n.id == acc for n in ast.walk(val)):
+            return None
+        is_set = isinstance(val, ast.SetComp) or conv == "set"
+
+        def nm(i, c):
+            return ast.copy_location(ast.Name(id=i, ctx=c), st)
+        elt = val.elt
+        inner: List[ast.stmt] = []
+        if in_elt:
+            self.counter += 1
+            tmp = f"_inl_e{self.counter}"
+            inner.append(ast.copy_location(ast.Assign(targets=[nm(tmp, ast.Store())], value=elt), st))
+            elt = nm(tmp, ast.Load())
+        inner.append(ast.copy_location(ast.Expr(value=ast.copy_location(ast.Call(
+            func=ast.copy_location(ast.Attribute(value=nm(acc, ast.Load()), attr="add" if is_set else "append", ctx=ast.Load()), st), args=[elt], keywords=[]), st)), st))
+        for g in reversed(gens):
+            for t in reversed(g.ifs):
+                inner = [ast.copy_location(ast.If(test=t, body=inner, orelse=[]), st)]
+            inner = [ast.copy_location(ast.For(target=g.target, iter=g.iter, body=inner, orelse=[], type_comment=None), st)]
+        init = ast.copy_location(ast.Call(func=nm("set", ast.Load()), args=[], keywords=[]), st) if is_set else ast.copy_location(ast.List(elts=[], ctx=ast.Load()), st)
+        res = [ast.copy_location(ast.Assign(targets=[nm(acc, ast.Store())], value=init), st)] + inner
+        fin = nm(acc, ast.Load())
+        if conv in ("tuple", "sorted"):
+            fin = ast.copy_location(ast.Call(func=nm(conv, ast.Load()), args=[fin], keywords=[]), st)
+            res.append(ast.copy_location(ast.Assign(targets=[nm(acc, ast.Store())], value=fin), st))
+            fin = nm(acc, ast.Load())
+        if isinstance(st, ast.Return):
+            res.append(ast.copy_location(ast.Return(value=fin), st))
+        for s2 in res:
+            ast.fix_missing_locations(s2)
+        self.log.append(f"{caller.qual}: comprehension over a new helper written as loops")
+        return res
+
     def _hoist_tests(self, stmts: List[ast.stmt], caller: Def) -> List[ast.stmt]:
+        pre = []
+        for st in stmts:
+            new = self._comp_to_loops(st, caller)
+            pre.extend(new if new is not None else [st])
+        stmts = pre
         out = []
         for st in stmts:
+            # `for t in helper(...)`: the iterable is evaluated once, before the loop -> `_inl_iN = helper(...); for t in _inl_iN`
+            if isinstance(st, ast.For) and isinstance(st.iter, ast.Call) and self._is_stmt_helper_call(st.iter, caller):
+                self.counter += 1
+                nm = f"_inl_i{self.counter}"
+                asg = ast.copy_location(ast.Assign(targets=[ast.Name(id=nm, ctx=ast.Store())], value=st.iter), st)
+                ast.fix_missing_locations(asg)
+                st.iter = ast.copy_location(ast.Name(id=nm, ctx=ast.Load()), st.iter)
+                out.append(asg)
+                out.append(st)
+                continue
             # `if A and helper(): X` (no else)  ->  `if A: (if helper(): X)`, so that the call becomes the whole test of an if
             if isinstance(st, ast.If) and not st.orelse and isinstance(st.test, ast.BoolOp) and isinstance(st.test.op, ast.And):
                 vals = st.test.values
